@@ -12,6 +12,11 @@ pool) and compares with the Lean driver working on the same bytes (`cuts`, `line
 * the `wf` op checks on the real bytes that the file is well-formed *as observed* (`OFile.wf` / `JFile.wf`: every
   line has the substring features and tokens of its kind) — the classification lemma is checked, not proved.
 
+Every deletion / duplication and a sample of the byte cuts (all cuts inside or behind a trailer line, every 4th other
+one) are ALSO opened with a keep-everything constructor filter (`filters={}`, `{'charged_particles': False}`,
+`{'uncharged_particles': False}`): the loaders then take the per-event count-rewriting path and the guard of the final
+event-count check sees keyword arguments; the outcome must be the same class (model: `readOscar f .all (some idFilter)`).
+
 Oracle (`search`): independent of the model — from the `FileSpec` alone: a cut may only ever give an error, or, when
 it falls behind at least one character of an event's trailer line (up to and including its newline), exactly the
 events up to that one with matching `num_events` and `(label, count)` rows; JETSCAPE: only inside / behind the
@@ -190,10 +195,31 @@ def oracle(layout, k, real):
 
 
 # ----------------------------------------------------------------------------- real code (worker processes)
+# keep-everything constructor options: the loaders take a different path as soon as `filters` is given (per-event count
+# rewriting) and the guard of the final event-count check looks at the keyword arguments
+KEEP_ALL = [dict(filters={}), dict(filters={"charged_particles": False}), dict(filters={"uncharged_particles": False})]
+
+
+def keep_all_kw(i):
+    return KEEP_ALL[i % len(KEEP_ALL)]
+
+
+def cut_sampled(lay, fidx, k):
+    """byte cuts that are ALSO opened with a keep-everything filter: every cut where a successful load is conceivable
+    (inside / behind a trailer line) and every 4th of the others"""
+    return lay.allowed_events(k) is not None or (k + fidx) % 4 == 0
+
+
 def _real_cuts(args):
-    spec, lo, hi = args
+    spec, fidx, lo, hi = args
     text = spec.text()
-    return [rmodel.run_real(spec, text=text[:k]) for k in range(lo, hi)]
+    lay = Layout(spec)
+    out = []
+    for k in range(lo, hi):
+        r = rmodel.run_real(spec, text=text[:k])
+        rf = rmodel.run_real(spec, text=text[:k], **keep_all_kw(k)) if cut_sampled(lay, fidx, k) else None
+        out.append((r, rf))
+    return out
 
 
 def _damaged_texts(spec):
@@ -208,7 +234,10 @@ def _damaged_texts(spec):
 
 
 def _real_lines(spec):
-    return [(i, rmodel.run_real(spec, text=d), rmodel.run_real(spec, text=u)) for i, d, u in _damaged_texts(spec)]
+    """per particle line: (line, deleted, duplicated, [deleted, duplicated under each keep-everything option])"""
+    return [(i, rmodel.run_real(spec, text=d), rmodel.run_real(spec, text=u),
+             [(rmodel.run_real(spec, text=d, **kw), rmodel.run_real(spec, text=u, **kw)) for kw in KEEP_ALL])
+            for i, d, u in _damaged_texts(spec)]
 
 
 def real_all(pool, specs):
@@ -218,7 +247,7 @@ def real_all(pool, specs):
         n = len(spec.text()) + 1
         step = max(50, n // 6)
         for lo in range(0, n, step):
-            jobs.append((si, lo, pool.submit(_real_cuts, (spec, lo, min(n, lo + step)))))
+            jobs.append((si, lo, pool.submit(_real_cuts, (spec, si, lo, min(n, lo + step)))))
     ljobs = [pool.submit(_real_lines, spec) for spec in specs]
     cuts = [dict() for _ in specs]
     for si, lo, fut in jobs:
@@ -300,8 +329,9 @@ def examine(ctx, spec, style, model, real, tag="corr"):
         mism.append(dict(what=f"{len(ans)} model answers / {len(real_cuts)} real outcomes for {len(text) + 1} offsets",
                          file=spec_to_json(spec)))
         return mism, viol
-    for k, (a, r) in enumerate(zip(ans, real_cuts)):
-        flags, _, mo = a.partition(":")
+    for k, (a, (r, rf)) in enumerate(zip(ans, real_cuts)):
+        flags, _, mo2 = a.partition(":")
+        mo, _, mof = mo2.partition("~")
         pc = lay.position_class(k)
         nontrivial = not pc.endswith("hdr")
         ctx.case((fid, "cut", k), nontrivial,
@@ -326,7 +356,20 @@ def examine(ctx, spec, style, model, real, tag="corr"):
             ctx.count("error-class-differs")
         bad = oracle(lay, k, r)
         if bad:
-            viol.append(dict(damage="cut", cut=k, position=pc, what=bad, observed=r))
+            viol.append(dict(damage="cut", cut=k, position=pc, what=bad, observed=r, opts=None))
+        if rf is not None:
+            # the same cut opened with a keep-everything constructor filter
+            kw = keep_all_kw(k)
+            ctx.case((fid, "cut+filters", k), nontrivial)
+            ctx.count("cut+filters/" + ("ok" if rf.startswith("ok") else "err"))
+            if not same_outcome(mof, rf):
+                mism.append(dict(what=f"cut {k} ({pc}) of a {spec.kind} file opened with {kw}: code `{rf}` vs model `{mof}`",
+                                 cut=k, opts=kw, code=rf, model=mof, file=spec_to_json(spec)))
+            if rf.startswith("err") != r.startswith("err"):
+                ctx.count("cut+filters/outcome-class-differs-from-plain")
+            bad = oracle(lay, k, rf)
+            if bad:
+                viol.append(dict(damage="cut", cut=k, position=pc, what=bad + f" [opened with {kw}]", observed=rf, opts=kw))
     # deletions / duplications
     if not lns.startswith("ok ") or lns.startswith("ok notwf"):
         mism.append(dict(what=f"driver answer to lines: {lns[:200]}", file=spec_to_json(spec)))
@@ -335,11 +378,22 @@ def examine(ctx, spec, style, model, real, tag="corr"):
     if len(lans) != len(real_lines):
         mism.append(dict(what=f"{len(lans)} model answers for {len(real_lines)} particle lines", file=spec_to_json(spec)))
         return mism, viol
-    for a, (i, rd, ru) in zip(lans, real_lines):
+    for a, (i, rd, ru, rvar) in zip(lans, real_lines):
         pos, _, rest = a.partition("=")
         md, _, mu = rest.partition("|")
-        for what, m_, r in (("delete", md, rd), ("duplicate", mu, ru)):
-            flag, _, mo = m_.partition(":")
+        for wi, (what, m_, r) in enumerate((("delete", md, rd), ("duplicate", mu, ru))):
+            flag, _, mo2 = m_.partition(":")
+            mo, _, mof = mo2.partition("~")
+            for kw, pair in zip(KEEP_ALL, rvar):
+                rf = pair[wi]
+                ctx.case((fid, what + "+filters", i, json.dumps(kw, sort_keys=True)), True)
+                ctx.count(f"line+filters/{what}/{'ok' if rf.startswith('ok') else 'err'}")
+                if not same_outcome(mof, rf):
+                    mism.append(dict(what=f"{what} line {i} of a {spec.kind} file opened with {kw}: code `{rf}` vs model `{mof}`",
+                                     line=i, damage=what, opts=kw, code=rf, model=mof, file=spec_to_json(spec)))
+                if not rf.startswith("err"):
+                    viol.append(dict(damage=what, line=i, opts=kw, observed=rf,
+                                     what=f"a {what}d particle line is not detected when the file is opened with {kw}: {rf}"))
             ctx.case((fid, what, i), True)
             ctx.count(f"line/{what}")
             ctx.count(f"real-line/{r if r.startswith('err') else 'ok'}")
@@ -352,34 +406,38 @@ def examine(ctx, spec, style, model, real, tag="corr"):
                 mism.append(dict(what=f"{what} line {i} of a {spec.kind} file: code `{r}` vs model `{mo}`", line=i,
                                  damage=what, code=r, model=mo, file=spec_to_json(spec)))
             if not r.startswith("err"):
-                viol.append(dict(damage=what, line=i, what=f"a {what}d particle line is not detected: {r}", observed=r))
+                viol.append(dict(damage=what, line=i, what=f"a {what}d particle line is not detected: {r}", observed=r, opts=None))
     return mism, viol
 
 
 def violation_key(spec, v):
+    sfx = ":with-keep-all-filters" if v.get("opts") else ""
     if v["damage"] == "cut":
-        return f"cut:{'jetscape' if spec.is_jetscape() else 'oscar'}:{v['position']}"
-    return f"{v['damage']}:{'jetscape' if spec.is_jetscape() else 'oscar'}:particle-line"
+        return f"cut:{'jetscape' if spec.is_jetscape() else 'oscar'}:{v['position']}{sfx}"
+    return f"{v['damage']}:{'jetscape' if spec.is_jetscape() else 'oscar'}:particle-line{sfx}"
 
 
 def check_one(spec, v):
     """does the (real code, oracle) failure `v` reproduce on `spec`?  returns the failure found on spec with the same key"""
     lay = Layout(spec)
     key = violation_key(spec, v)
+    kw = v.get("opts") or {}
+    note = f" [opened with {kw}]" if kw else ""
     if v["damage"] == "cut":
         text = lay.text
         for k in range(len(text) + 1):
-            r = rmodel.run_real(spec, text=text[:k])
+            r = rmodel.run_real(spec, text=text[:k], **kw)
             bad = oracle(lay, k, r)
             if bad:
-                w = dict(damage="cut", cut=k, position=lay.position_class(k), what=bad, observed=r)
+                w = dict(damage="cut", cut=k, position=lay.position_class(k), what=bad + note, observed=r, opts=v.get("opts"))
                 if violation_key(spec, w) == key:
                     return w
         return None
-    for i, rd, ru in _real_lines(spec):
-        r = rd if v["damage"] == "delete" else ru
+    for i, d, u in _damaged_texts(spec):
+        r = rmodel.run_real(spec, text=d if v["damage"] == "delete" else u, **kw)
         if not r.startswith("err"):
-            return dict(damage=v["damage"], line=i, what=f"a {v['damage']}d particle line is not detected: {r}", observed=r)
+            return dict(damage=v["damage"], line=i, opts=v.get("opts"), observed=r,
+                        what=f"a {v['damage']}d particle line is not detected{note}: {r}")
     return None
 
 
@@ -427,6 +485,8 @@ def report(ctx, spec, v, seen):
     else:
         dmg = dict(damage=v2["damage"], line=v2["line"])
         exp = "an exception"
+    if v2.get("opts"):
+        dmg["options"] = v2["opts"]
     ctx.violation(key, v2["what"], dict(input=dict(file=spec_to_json(s2), text=lay.text, **dmg), expected=exp,
                                         observed=v2["observed"], how_to_replay="./check C07 --replay <this file>"))
 
@@ -511,16 +571,21 @@ def search(ctx, budget_s):
                 n += 1
                 ctx.case((file_id(lay.text), "oracle-file"), True)
                 ctx.count("oracle-cuts", len(cuts))
-                ctx.count("oracle-lines", 2 * len(lines))
-                for k, r in enumerate(cuts):
-                    bad = oracle(lay, k, r)
-                    if bad:
-                        report(ctx, spec, dict(damage="cut", cut=k, position=lay.position_class(k), what=bad, observed=r), seen)
-                for i, rd, ru in lines:
-                    for what, r in (("delete", rd), ("duplicate", ru)):
-                        if not r.startswith("err"):
-                            report(ctx, spec, dict(damage=what, line=i, what=f"a {what}d particle line is not detected: {r}",
-                                                   observed=r), seen)
+                ctx.count("oracle-lines", 2 * (1 + len(KEEP_ALL)) * len(lines))
+                ctx.count("oracle-cuts+filters", sum(1 for _, rf in cuts if rf is not None))
+                for k, (r, rf) in enumerate(cuts):
+                    for kw, x in ((None, r), (keep_all_kw(k), rf)):
+                        bad = oracle(lay, k, x) if x is not None else None
+                        if bad:
+                            report(ctx, spec, dict(damage="cut", cut=k, position=lay.position_class(k), observed=x, opts=kw,
+                                                   what=bad + (f" [opened with {kw}]" if kw else "")), seen)
+                for i, rd, ru, rvar in lines:
+                    for wi, (what, r) in enumerate((("delete", rd), ("duplicate", ru))):
+                        for kw, x in [(None, r)] + [(kw, pair[wi]) for kw, pair in zip(KEEP_ALL, rvar)]:
+                            if not x.startswith("err"):
+                                report(ctx, spec, dict(damage=what, line=i, observed=x, opts=kw,
+                                                       what=f"a {what}d particle line is not detected"
+                                                            + (f" when the file is opened with {kw}" if kw else "") + f": {x}"), seen)
             if time.time() - t0 > budget_s:
                 break
     ctx.cov["oracle_files"] = n + len(getattr(ctx, "_c07_specs", []))
@@ -538,21 +603,26 @@ def replay(ctx, path):
             return 1
         inp = dict(file=c["file"], damage="cut", cut=c.get("cut", 0)) if "cut" in c else \
             dict(file=c["file"], damage=c.get("damage", "delete"), line=c.get("line", 0))
+        inp["options"] = c.get("opts")
     spec = spec_from_json(inp["file"])
     lay = Layout(spec)
     k = drv_kind(spec)
+    kw = inp.get("options") or {}
+    op = "ctorF" if kw else "ctor"
+    if kw:
+        print(f"[C07] constructor options: {kw}")
     if inp["damage"] == "cut":
         text = lay.text[:inp["cut"]]
-        real = rmodel.run_real(spec, text=text)
-        model = common.run_driver("C07", ["\t".join(["ctor", k, hexs(text)])])[0]
+        real = rmodel.run_real(spec, text=text, **kw)
+        model = common.run_driver("C07", ["\t".join([op, k, hexs(text)])])[0]
         bad = oracle(lay, inp["cut"], real)
         print(f"[C07] {spec.kind} file of {len(lay.text)} bytes cut to {inp['cut']} bytes ({lay.position_class(inp['cut'])}); "
               f"last line {text.rsplit(chr(10), 1)[-1]!r}")
     else:
         dm = {i: (a, b) for i, a, b in _damaged_texts(spec)}
         text = dm[inp["line"]][0 if inp["damage"] == "delete" else 1]
-        real = rmodel.run_real(spec, text=text)
-        model = common.run_driver("C07", ["\t".join(["ctor", k, hexs(text)])])[0]
+        real = rmodel.run_real(spec, text=text, **kw)
+        model = common.run_driver("C07", ["\t".join([op, k, hexs(text)])])[0]
         bad = None if real.startswith("err") else f"a {inp['damage']}d particle line is not detected: {real}"
         print(f"[C07] {spec.kind} file, particle line {inp['line']} {inp['damage']}d")
     print(f"[C07] code : {real}\n[C07] model: {model}")
